@@ -32,6 +32,8 @@ def reset(model):
     del REACHED[:]
     INPUTS.clear()
     LAZY_MAPS.clear()
+    for (cls, meth) in list(_STUBBED):
+        unstub(cls, meth)
 
 
 def unit(name, **meta):
@@ -214,11 +216,24 @@ def all_of(xs):
     return all(xs)
 
 
+_STUBBED = {}
+
+
 def stub(cls, meth, fn):
+    """replace cls.meth by the harness function fn (a real monkey patch natively; undone by unstub / the next reset)"""
+    if (cls, meth) not in _STUBBED:
+        _STUBBED[(cls, meth)] = cls.__dict__.get(meth, _STUBBED)      # _STUBBED = "was inherited"
+    setattr(cls, meth, fn)
     return None
 
 
 def unstub(cls, meth):
+    if (cls, meth) in _STUBBED:
+        orig = _STUBBED.pop((cls, meth))
+        if orig is _STUBBED:
+            delattr(cls, meth)
+        else:
+            setattr(cls, meth, orig)
     return None
 
 
